@@ -51,6 +51,8 @@ func init() {
 	badPairs[[2]string{"|", "||"}] = true
 	badPairs[[2]string{"|", "|="}] = true
 	badPairs[[2]string{"/", "*="}] = true
+	// "<!" followed by "--" would be read as a CDO token
+	badPairs[[2]string{"<", "!"}] = true
 	badPairs[[2]string{"ident", "() block"}] = true
 	badPairs[[2]string{"|", "|"}] = true
 	badPairs[[2]string{"/", "*"}] = true
@@ -355,6 +357,9 @@ func serializeTo(nodes []Token, writer io.StringWriter) {
 			serializationType = literal.Value
 		}
 		if badPairs[[2]string{previousType, serializationType}] {
+			writer.WriteString("/**/")
+		} else if ident, ok := previous.(Ident); ok && serializationType == "+" && (ident.Value == "u" || ident.Value == "U") {
+			// "u+" may start a unicode-range token
 			writer.WriteString("/**/")
 		} else if serializationType == ">" && endsWithTwoDashes(previous) {
 			// "-->" would be read as a CDC token
